@@ -152,6 +152,9 @@ def main(tier):
     plan += [(racing_from("healthy", [dict(max_workers=2, timeout=7), dict(max_workers=2)]), 1, Ponly),
              (racing_from("cold", [dict(max_workers=1), dict(max_workers=2)]), 1, Ponly),
              (racing_from("healthy", [dict(max_workers=2, timeout=7), dict(max_workers=1, timeout=7)]), 1, Ponly)]
+    # get_reusable_executor re-entered from done-callbacks / racing with callbacks that submit
+    plan += [(PG.reuse_in_callback(2, 3), 1, PT), (PG.reuse_in_callback(3, 1), 0, PT),
+             (PG.reuse_in_callback(2, 2), 1, PT), (PG.resize_vs_callback_submit(1, 3), 1, PT)]
     # source-line granularity: the decision logic of get_reusable_executor under one preemption
     # at any line
     plan += simcheck.line_plan([racing_from("cold", [dict(max_workers=2), dict(max_workers=2)]),
